@@ -14,5 +14,6 @@ def run(prog, rep, tier):
     apply(rep, "H1", "ranges are written only inside coverage", r_aset.h1(prog), 15)
     apply(rep, "H3", "words call the documented set operation", r_aset.h3(prog), 20)
     apply(rep, "H5", "every piece of an intersection is clipped by the stored range and by the queried range", r_aset.h5(prog), 2)
+    apply(rep, "H6", "remove stops early only in the hole case", r_aset.h6(prog), 1)
     apply(rep, "H4", "addresses are ordered by comparison, never by the sign of a difference", r_aset.h4(prog), 1)
     maybe_mutants("C16", rep, tier)
